@@ -30,7 +30,7 @@ func C18layout(p *load.Program, run *report.Run) {
 	var prevHi int64
 	slices := 0
 	bad := ""
-	for idx, st := range fd.Body.List {
+	for idx, st := range effectiveQ(pkg.TypesInfo, fd.Body.List) {
 		// the length guard must come first
 		if idx == 0 {
 			if ifs, ok := st.(*ast.IfStmt); ok {
@@ -52,7 +52,7 @@ func C18layout(p *load.Program, run *report.Run) {
 		// slices of data in this statement, under the environment before it
 		ast.Inspect(st, func(n ast.Node) bool {
 			sl, ok := n.(*ast.SliceExpr)
-			if !ok || types.ExprString(sl.X) != "data" || bad != "" {
+			if !ok || exprNorm(fd, sl.X) != "$0" || bad != "" {
 				return true
 			}
 			m := &miniEval{pkg: pkg, env: env}
